@@ -989,6 +989,10 @@ theorem pullChild_maps (b : Bool) (w : W) (l : String) (f : Bool) :
   · simp only
     split <;> simp
 
+theorem loadChild_maps (b : Bool) (w : W) (l : String) (c : Child) :
+    (loadChild b w l c).1.imap = w.imap ∧ (loadChild b w l c).1.omap = w.omap := by
+  unfold loadChild; split <;> simp
+
 /-- putting the labels back node by node undoes the temporary labels -/
 theorem labelBack_labelTemp (tree : List String) (cs : List Child) : labelBack cs (labelTemp tree cs) = cs := by
   induction cs with
@@ -1035,6 +1039,7 @@ theorem step_inv (w : W) (op : Op) (h : WInv w) (hwf : op.WF) : WInv (step w op)
   | replace l c => have := replaceChild_maps w l c; simp only [step, WInv, this.1, this.2]; exact ⟨hi, ho⟩
   | relabel o n => have := relabelChild_maps false w o n; simp only [step, WInv, this.1, this.2]; exact ⟨hi, ho⟩
   | pull l f => have := pullChild_maps true w l f; simp only [step, WInv, this.1, this.2]; exact ⟨hi, ho⟩
+  | load l c => have := loadChild_maps false w l c; simp only [step, WInv, this.1, this.2]; exact ⟨hi, ho⟩
 
 theorem run_inv (ops : List Op) (hwf : ∀ op ∈ ops, op.WF) : ∀ (w : W), WInv w → WInv (run w ops) := by
   induction ops with
